@@ -86,7 +86,7 @@ var props = map[string]propCfg{
 	"C12": {World: "diode", Level: "exploration", QuickWall: 20, ThoroughSec: 600, Rule: ruleCommon},
 	"C05": {World: "c05", ExtraWorld: "c18", Level: "exploration", QuickWall: 25, ThoroughSec: 600, Rule: ruleCommon},
 	"C13": {World: "c13", Level: "exploration", QuickWall: 15, ThoroughSec: 300, Rule: ruleCommon},
-	"C14": {World: "c14", Level: "fault_enumeration", QuickWall: 15, ThoroughSec: 300, Rule: ruleCommon + " Faults: per (destination, event) outcome in {ok, error, short write}, sampled (not enumerated) over 1-4 destinations x 1-6 events x 1-2 tasks."},
+	"C14": {World: "c14", Level: "exploration", QuickWall: 15, ThoroughSec: 300, Rule: ruleCommon + " Faults: per (destination, event) outcome in {ok, error, short write}, sampled (not enumerated) over 1-4 destinations x 1-6 events x 1-2 tasks."},
 	"C15": {World: "c15", Level: "exploration", QuickWall: 20, ThoroughSec: 600, Rule: ruleCommon},
 	"C17": {World: "c17", Tags: "binary_log", Level: "fault_enumeration", QuickWall: 25, ThoroughSec: 600, Rule: ruleCommon + " Per run: a binary log stream written by 1-3 logging tasks; every byte offset of the stream (all offsets up to 1200 bytes, else a drawn stride plus +-12 around every event boundary) is taken as crash point, then 10-40 stored-byte/reader fault combinations are applied."},
 	"C18": {World: "c18", Level: "exploration", QuickWall: 20, ThoroughSec: 600, Rule: ruleCommon},
